@@ -27,6 +27,10 @@ def run(ctx):
     else:
         pa, pr = _utxochain.run_scenario(ctx, binary, "MC_spend", "MCO_spend", "spend4", RELEVANT, nontrivial)
     _utxochain.need(pr, ["connected", "stored", "bad-txns-inputs-missingorspent", "bad-txns-inputs-duplicate", "bad-txns-BIP30"], "C02")
+    # BIP30 proper: byte-identical coinbases (possible while BIP34 is inactive) re-create an output that still exists unspent
+    pa2, pr2 = _utxochain.run_scenario(ctx, binary, "MC_spend", "MCO_spend", "bip30", RELEVANT, lambda p: any(s["a"][0] == "mine" and s["a"][3] == "dup" for s in p["steps"]),
+                                       extra_args=["arg=-testactivationheight=bip34@1000"])
+    _utxochain.need(pr2, ["connected", "bad-txns-BIP30"], "C02/bip30")
     ctx.assumptions += ["bounded scenario: base chain of 101 blocks, 2 mature base coins, <= 3 (quick) / 4 (thorough) new blocks on any parents"]
     return ctx.finish(level="model_checking", exhaustive=True,
                       rule="path cover of every transition of the bounded UtxoChain graph; non-trivial = distinct paths mining at least one block with transactions")
